@@ -368,19 +368,24 @@ Section Closure.
   Definition undone (V : list label) (dn : list label) : list label := filter (fun x => negb (mem x dn)) V.
   Definition measure (V : list label) (st : bfs_state) : nat := length (q st) + length (undone V (done st)).
 
+  Lemma mem_cons x l dn : mem x (l :: dn) = N.eqb x l || mem x dn.
+  Proof. reflexivity. Qed.
+
+  Lemma undone_cons_le V l dn : length (undone V (l :: dn)) <= length (undone V dn).
+  Proof.
+    induction V as [|v V IH]; unfold undone in *; cbn [filter]; [apply le_n|].
+    rewrite mem_cons. destruct (N.eqb v l), (mem v dn); cbn [orb negb length]; lia.
+  Qed.
+
   Lemma undone_push V l dn :
     In l V -> mem l dn = false -> S (length (undone V (l :: dn))) <= length (undone V dn).
   Proof.
     intros Hin Hm. induction V as [|v V IH]; [destruct Hin|].
-    unfold undone in *. cbn [filter]. unfold mem at 1 3. cbn [existsb].
-    destruct (N.eqb v l) eqn:Hvl.
-    - apply N.eqb_eq in Hvl. subst v. cbn [orb negb]. fold (mem l dn). rewrite Hm. cbn [negb length].
-      apply le_n_S. clear. induction V as [|v V IH]; cbn [filter]; [apply le_n|].
-      unfold mem at 1 3. cbn [existsb]. destruct (N.eqb v l); cbn [orb negb].
-      + fold (mem v dn). destruct (negb (mem v dn)); cbn [length]; lia.
-      + fold (mem v dn). destruct (negb (mem v dn)); cbn [length]; lia.
-    - cbn [orb]. fold (mem v dn). destruct Hin as [Heq | Hin]; [subst v; rewrite N.eqb_refl in Hvl; discriminate|].
-      specialize (IH Hin). destruct (negb (mem v dn)); cbn [length]; lia.
+    pose proof (undone_cons_le V l dn) as Hle.
+    unfold undone in *. cbn [filter]. rewrite mem_cons. destruct (N.eqb v l) eqn:Hvl.
+    - apply N.eqb_eq in Hvl. subst v. rewrite Hm. cbn [orb negb length]. lia.
+    - destruct Hin as [Heq | Hin]; [subst v; rewrite N.eqb_refl in Hvl; discriminate|].
+      specialize (IH Hin). cbn [orb]. destruct (mem v dn); cbn [negb length]; lia.
   Qed.
 
   Lemma push_measure V l d st : In l V -> measure V (push l d st) <= measure V st.
@@ -432,7 +437,9 @@ Section Closure.
     - intros u Hu. apply in_app_iff. left. apply in_map. exact Hu.
     - eapply Nat.le_lt_trans; [apply (init_measure V); intros l Hl; apply in_app_iff; right; exact Hl|].
       unfold measure. cbn [q done length]. unfold undone.
-      pose proof (filter_length_le (fun x => negb (mem x [])) V) as Hle.
+      assert (Hle : length (filter (fun x => negb (mem x [])) V) <= length V).
+      { clear. induction V as [|v V IH]; cbn [filter]; [apply le_n|].
+        destruct (negb (mem v [])); cbn [length]; lia. }
       unfold V in *. rewrite app_length, map_length in Hle. cbn [plus]. lia.
   Qed.
 End Closure.
@@ -501,4 +508,147 @@ Proof.
   right. apply orb_true_iff in Hd. destruct Hd as [Hd | Hd]; [left | right; exact Hd].
   exists b. split; [reflexivity|]. apply orb_true_iff in Hd.
   destruct Hd as [Hd | Hd]; [left | right]; apply negb_true_iff in Hd; apply N.eqb_neq; exact Hd.
+Qed.
+
+(* ------------------------------------------------------------------------------------------ *)
+(* closest-package ownership: the loop of changedTargets finds the deepest enclosing package *)
+
+Fixpoint join (segs : list str) : str :=
+  match segs with
+  | [] => []
+  | x :: rest => match rest with [] => x | _ => x ++ slash :: join rest end
+  end.
+
+(* a path segment: not empty, no separator, not "." *)
+Definition wf_seg (x : str) : Prop := x <> [] /\ ~ In slash x /\ x <> s ".".
+
+(* [rdirs]: the directory segments of the file, deepest first.  The candidates are tried from the file's own
+   directory up to the repository root (package ""). *)
+Fixpoint closest_aux (pkgs : list str) (rdirs : list str) : option str :=
+  match rdirs with
+  | [] => if existsb (str_eqb []) pkgs then Some [] else None
+  | _ :: rest => if existsb (str_eqb (join (rev rdirs))) pkgs then Some (join (rev rdirs)) else closest_aux pkgs rest
+  end.
+Definition closest (pkgs : list str) (segs : list str) : option str := closest_aux pkgs (tl (rev segs)).
+
+Lemma bls_none x : ~ In slash x -> before_last_slash x = None.
+Proof.
+  induction x as [|c x IH]; intros Hn; cbn [before_last_slash]; [reflexivity|].
+  rewrite IH by (intros H; apply Hn; right; exact H).
+  destruct (N.eqb c slash) eqn:Hc; [|reflexivity].
+  apply N.eqb_eq in Hc. exfalso. apply Hn. left. exact Hc.
+Qed.
+
+Lemma bls_app a x : ~ In slash x -> before_last_slash (a ++ slash :: x) = Some a.
+Proof.
+  intros Hn. induction a as [|c a IH]; cbn [app before_last_slash].
+  - rewrite (bls_none x Hn). rewrite N.eqb_refl. reflexivity.
+  - rewrite IH. reflexivity.
+Qed.
+
+Lemma join_snoc init x : init <> [] -> join (init ++ [x]) = join init ++ slash :: x.
+Proof.
+  induction init as [|y init IH]; intros Hne; [exfalso; apply Hne; reflexivity|].
+  destruct init as [|z r].
+  - reflexivity.
+  - change (join ((y :: z :: r) ++ [x])) with (y ++ slash :: join ((z :: r) ++ [x])).
+    rewrite IH by discriminate.
+    change (join (y :: z :: r)) with (y ++ slash :: join (z :: r)).
+    rewrite <- app_assoc. reflexivity.
+Qed.
+
+Lemma join_last_nonslash init :
+  init <> [] -> Forall wf_seg init -> exists y c, join init = y ++ [c] /\ c <> slash.
+Proof.
+  intros Hne Hwf. destruct (exists_last Hne) as [init' [z Hinit]]. subst init.
+  apply Forall_app in Hwf. destruct Hwf as [_ Hz]. inversion Hz as [|? ? [Hz1 [Hz2 _]] _]; subst.
+  destruct (exists_last Hz1) as [z' [c Hzc]]. subst z.
+  assert (Hc : c <> slash).
+  { intros Heq. apply Hz2. apply in_app_iff. right. left. exact Heq. }
+  destruct init' as [|y r].
+  - exists z', c. split; [reflexivity | exact Hc].
+  - exists (join (y :: r) ++ slash :: z'), c. split; [|exact Hc].
+    rewrite join_snoc by discriminate. rewrite <- app_assoc. reflexivity.
+Qed.
+
+Lemma strip_trailing_nonslash y c : c <> slash -> strip_trailing_slashes (y ++ [c]) = y ++ [c].
+Proof.
+  intros Hc. unfold strip_trailing_slashes. rewrite rev_app_distr. cbn [rev app strip_trailing_slashes_rev].
+  apply N.eqb_neq in Hc. rewrite Hc. cbn [rev]. rewrite rev_involutive. reflexivity.
+Qed.
+
+Lemma path_dir_join init x :
+  init <> [] -> Forall wf_seg init -> ~ In slash x -> path_dir (join (init ++ [x])) = join init.
+Proof.
+  intros Hne Hwf Hx. rewrite join_snoc by exact Hne. unfold path_dir. rewrite (bls_app _ x Hx).
+  destruct (join_last_nonslash init Hne Hwf) as [y [c [Hj Hc]]]. rewrite Hj.
+  rewrite (strip_trailing_nonslash y c Hc). destruct (y ++ [c]) eqn:He; [|reflexivity].
+  exfalso. apply (app_cons_not_nil y [] c). symmetry. exact He.
+Qed.
+
+Lemma join_not_special segs :
+  segs <> [] -> Forall wf_seg segs -> join segs <> s "." /\ join segs <> s "/".
+Proof.
+  intros Hne Hwf. destruct (exists_last Hne) as [init [x Hs]]. subst segs.
+  pose proof Hwf as Hwf'. apply Forall_app in Hwf'. destruct Hwf' as [Hinit Hx].
+  inversion Hx as [|? ? [Hx1 [Hx2 Hx3]] _]; subst.
+  destruct init as [|y r].
+  - cbn [app join]. split; [exact Hx3|]. intros Heq. apply Hx2. rewrite Heq. left. reflexivity.
+  - rewrite join_snoc by discriminate.
+    destruct (join_last_nonslash (y :: r)) as [a [c [Hj _]]]; [discriminate | exact Hinit|].
+    rewrite Hj. split; intros Heq; apply (f_equal (@length N)) in Heq;
+      rewrite !app_length in Heq; cbn [length s] in Heq; lia.
+Qed.
+
+Lemma owner_loop_dot k pkgs : owner_loop k pkgs (s ".") = None.
+Proof. destruct k; reflexivity. Qed.
+
+Lemma owner_loop_closest pkgs rd : forall x fuel,
+  Forall wf_seg (x :: rd) -> length rd < fuel ->
+  owner_loop fuel pkgs (join (rev (x :: rd))) = closest_aux pkgs rd.
+Proof.
+  induction rd as [|y rd IH]; intros x fuel Hwf Hfuel; (destruct fuel as [|k]; [lia|]).
+  - cbn [rev app join]. inversion Hwf as [|? ? [Hx1 [Hx2 Hx3]] _]; subst.
+    destruct (join_not_special [x]) as [Hd Hs]; [discriminate | exact Hwf|]. cbn [join] in Hd, Hs.
+    cbn [owner_loop]. apply str_eqb_neq in Hd, Hs. rewrite Hd, Hs. cbn [orb].
+    unfold path_dir. rewrite (bls_none x Hx2). rewrite str_eqb_refl.
+    cbn [closest_aux]. destruct (existsb (str_eqb []) pkgs); [reflexivity | apply owner_loop_dot].
+  - assert (Hrev : Forall wf_seg (rev (x :: y :: rd))) by (apply Forall_rev; exact Hwf).
+    destruct (join_not_special (rev (x :: y :: rd))) as [Hd Hs]; [|exact Hrev|].
+    { cbn [rev]. intros He. apply app_eq_nil in He. destruct He as [_ He]. discriminate. }
+    cbn [owner_loop]. apply str_eqb_neq in Hd, Hs. rewrite Hd, Hs. cbn [orb].
+    inversion Hwf as [|? ? [Hx1 [Hx2 Hx3]] Hwf']; subst.
+    assert (Hrev' : Forall wf_seg (rev (y :: rd))) by (apply Forall_rev; exact Hwf').
+    assert (Hne' : rev (y :: rd) <> []).
+    { cbn [rev]. intros He. apply app_eq_nil in He. destruct He as [_ He]. discriminate. }
+    change (rev (x :: y :: rd)) with (rev (y :: rd) ++ [x]).
+    rewrite (path_dir_join (rev (y :: rd)) x Hne' Hrev' Hx2).
+    destruct (join_not_special (rev (y :: rd)) Hne' Hrev') as [Hd' _].
+    apply str_eqb_neq in Hd'. rewrite Hd'.
+    cbn [closest_aux]. destruct (existsb (str_eqb (join (rev (y :: rd)))) pkgs); [reflexivity|].
+    apply IH; [exact Hwf' | cbn [length] in Hfuel; lia].
+Qed.
+
+Lemma join_length segs : Forall wf_seg segs -> length segs <= length (join segs).
+Proof.
+  induction segs as [|x rest IH]; intros Hwf; [apply le_n|].
+  inversion Hwf as [|? ? [Hx1 _] Hrest]; subst. specialize (IH Hrest).
+  destruct rest as [|y r].
+  - cbn [join length]. destruct x; [exfalso; apply Hx1; reflexivity | cbn [length]; lia].
+  - change (join (x :: y :: r)) with (x ++ slash :: join (y :: r)).
+    rewrite app_length. cbn [length] in *. lia.
+Qed.
+
+(* the loop of changedTargets returns the closest enclosing package of a well-formed relative path *)
+Theorem owner_closest g segs :
+  segs <> [] -> Forall wf_seg segs -> owner g (join segs) = closest (g_pkgs g) segs.
+Proof.
+  intros Hne Hwf. unfold owner, closest.
+  assert (Hr : rev segs <> []).
+  { intros He. apply Hne. rewrite <- (rev_involutive segs), He. reflexivity. }
+  destruct (rev segs) as [|x rd] eqn:Hrev; [exfalso; apply Hr; reflexivity|].
+  assert (Hs : segs = rev (x :: rd)) by (rewrite <- Hrev, rev_involutive; reflexivity).
+  cbn [tl]. rewrite Hs at 2. apply owner_loop_closest.
+  - rewrite <- Hrev. apply Forall_rev. exact Hwf.
+  - pose proof (join_length segs Hwf) as Hl. rewrite <- (rev_length segs), Hrev in Hl. cbn [length] in Hl. lia.
 Qed.
